@@ -59,6 +59,12 @@ def uniquify_index(table):
         ix["cells"] = fresh(ix["phys"], len(cells))
 
 
+def _re_safe(name):
+    import re
+
+    return isinstance(name, str) and re.escape(name) == name
+
+
 @st.composite
 def strategy(draw):
     base = draw(gen.case_strategy(allow_dup_labels=False, allow_frame_checks=True))
@@ -75,10 +81,29 @@ def strategy(draw):
     kind = spec.get("kind", "dataframe")
     if kind == "dataframe" and len(spec["columns"]) >= 1 and draw(st.integers(0, 5)) == 0:
         # standalone Column with drop_invalid_rows
-        cols = [c for c in spec["columns"] if not c.get("regex") and c["name"] in [t["name"] for t in case["table"]["columns"]]]
+        import re as _re
+
+        tn = [t["name"] for t in case["table"]["columns"]]
+        cols = [c for c in spec["columns"] if (c["name"] in tn if not c.get("regex") else any(_re.match(c["name"], n) for n in tn))]
+        rx = [c for c in cols if c.get("regex") and sum(1 for n in tn if _re.match(c["name"], n)) >= 2]
         if cols:
-            c = dict(draw(st.sampled_from(cols)), drop_invalid_rows=True)
+            # (a regex Column drops the rows that are invalid in any of the columns it selects)
+            c = dict(draw(st.sampled_from(rx * 3 + cols)), drop_invalid_rows=True)
             spec = {"kind": "column", "columns": [c]}
+    if kind == "dataframe" and spec.get("kind") != "column" and draw(st.integers(0, 7)) == 0:
+        # a standalone regex Column selecting two numeric columns, with a bound that some rows of the *first* selected
+        # column (and other rows of the second) violate: rows invalid in either are to be dropped
+        num = [t for t in case["table"]["columns"] if t["phys"] in ("int64", "float64") and t["cells"]
+               and not any(v is None for v in t["cells"]) and _re_safe(t["name"])]
+        if len(num) >= 2:
+            t1, t2 = draw(st.permutations(num))[:2]
+            if t1["phys"] == t2["phys"]:
+                allv = sorted(t1["cells"] + t2["cells"])
+                m = draw(st.sampled_from(allv))
+                spec = {"kind": "column", "columns": [{
+                    "name": "^(%s|%s)$" % (t1["name"], t2["name"]), "regex": True, "dtype": t1["phys"], "nullable": False,
+                    "unique": False, "required": True, "drop_invalid_rows": True,
+                    "checks": [{"kind": "greater_than_or_equal_to", "args": {"min_value": m}}]}]}
     # a parser that changes nothing here (abs of non-negative numbers): the rows are dropped on the parsed data path
     tcs = {t["name"]: t for t in case["table"]["columns"]}
     for c in spec["columns"]:
